@@ -34,8 +34,16 @@ def main(batch_path, cfg_path, out_path):
                 f"{cfg['permute']}:{idx}"))
         res = {"exc": None}
         try:
+            def before(r, case=case, idx=idx):
+                rts = list(case.get("retargets", []))
+                if cfg.get("permute"):
+                    random.Random(f"{cfg['permute']}:rt:{idx}").shuffle(rts)
+                for a, b in rts:
+                    sa = next(s for s in r.bu.module.symbols if s.name == a)
+                    sb = next(s for s in r.bu.module.symbols if s.name == b)
+                    r.ctx.retarget_symbol_uses(sa, sb)
             r = rewrite.run(case, seed=cfg["uuid_seed"],
-                            register_order=order)
+                            register_order=order, before_apply=before)
             if r.exception is None and case.get("second_rewrite"):
                 # the rewritten module is rewritten once more by a new
                 # context (patch numbering starts again): same labels again
